@@ -1,4 +1,7 @@
 /-
+  UPDATE (build round 2): uniqueness, the loss multiset/count, the look-ups and the TikZ counts are PROVED in Properties/C13Full.lean and C13Tikz.lean (and on the drawing calls in C13Draw.lean / C13DrawValid.lean).
+  (The text below is kept as written in round 1; where it says "missing" / "not proved", see the files above.)
+
   C13 — a diagram shows exactly the events the cost model counts.
 
   Model: `SRVerif/Model/Layout.lean` (`computeBranches` = `_compute_branches`
